@@ -37,12 +37,14 @@ ASSUMPTIONS = [
     "gc is run at fixed points; finalisers of abandoned generators run as simulator tasks before the next op",
 ]
 PROBES = ("transient_error", "closed_directly", "closed_via_iter", "closed_by_tool", "closed_by_gc", "asend_used", "athrow_on_closed_handle",
-          "underlying_used_after_close", "tool_abandoned", "reborrowed", "handle_ladder", "close_during_pull")
+          "underlying_used_after_close", "tool_abandoned", "reborrowed", "handle_ladder", "close_during_pull", "tool_kept")
 
 TOOL_NAMES = ("zip", "map", "filter", "filterfalse", "enumerate", "accumulate", "batched", "chain", "compress",
               "cycle", "dropwhile", "takewhile", "islice", "pairwise", "zip_longest", "tee", "groupby")
 AGG_NAMES = ("all", "any", "sum", "min", "max", "list", "tuple", "set", "sorted", "reduce", "nlargest", "nsmallest")
 CLOSES_UNSTARTED = ("chain",)
+KEPT_TOOLS = ("zip", "map", "filter", "filterfalse", "enumerate", "accumulate", "batched", "compress", "dropwhile",
+              "takewhile", "islice", "pairwise", "zip_longest", "tee")
 
 
 class ModelIter:
@@ -86,11 +88,25 @@ def gen(ch):
     sc.src.aclose_suspends = 0
     ops = []
     for n in range(ch.between(1, 12)):
-        kind = ch.weighted([5, 3, 2, 1, 2, 4, 1, 1, 1, 2, 1, 1, 1, 2, 2])
+        kind = ch.weighted([5, 3, 2, 1, 2, 4, 1, 1, 1, 2, 1, 1, 1, 2, 2, 2, 4])
         # 0 next_b 1 next_u 2 close_b 3 close_iter_b 4 asend 5 tool 6 reborrow 7 drop+gc 8 athrow 9 aggregation
         # 10 borrow the handle itself 11 next_b hitting a transient error of the underlying 12 same via next_u
         # 13 a ladder of 2..4 handles, each borrowed from the one below: advance / close any rung in any order
         # 14 another task is in the middle of a pull through the handle while this one closes the handle
+        # 15 hand the handle to a tool, take j >= 1 items and KEEP the tool; 16 advance the most recent kept tool once
+        if kind == 15:
+            gt = Gen(ch, cfg, "k%d" % n)
+            gt.uid = 1000 * (n + 1)
+            name = KEPT_TOOLS[ch.draw(len(KEPT_TOOLS))]
+            spec = TOOLS[name].gen(gt)
+            if not spec.srcs:
+                spec.srcs = [gt.src([])]
+            if name == "batched" and spec.p["n"] < 1:
+                spec.p["n"] = 1
+            if spec.p.get("alias"):
+                spec.p["alias"] = None
+            ops.append((15, spec, ch.between(1, 3), ch.draw(len(spec.srcs))))
+            continue
         if kind == 13:
             depth = ch.between(2, 4)
             ops.append((13, depth, tuple((ch.weighted([3, 2]), ch.draw(depth)) for _ in range(ch.between(1, 7)))))
@@ -179,12 +195,24 @@ def execute(st, ctx):
             return ("stop",)
         return ("item", ident(item))
 
+    kept = []  # (tool iterator over the handle, stdlib twin over the model's view of the handle), still in use
+
+    async def drop_kept():
+        # tools still holding the handle are closed by their owner: a started tool closes its input
+        while kept:
+            it_, _rit = kept.pop()
+            await it_.aclose()
+            model["open"] = False
+            model["closed"] = True
+            out.probes["closed_by_tool"] = 1
+
     async def history():
         b = L.borrow(underlying)
         for i, op in enumerate(sc.ops):
             kind = op[0]
             name = ("next_b", "next_u", "close_b", "close_iter_b", "asend", "tool", "reborrow", "drop_gc",
-                    "athrow", "agg", "reborrow_handle", "fault_next_b", "fault_next_u", "ladder", "close_during_pull")[kind]
+                    "athrow", "agg", "reborrow_handle", "fault_next_b", "fault_next_u", "ladder", "close_during_pull",
+                    "tool_kept", "kept_tool_step")[kind]
             if kind == 0:
                 got = await do_next(b)
                 exp = expect_next(True)
@@ -363,6 +391,7 @@ def execute(st, ctx):
                     exp = ("athrow", 0, 0)
             elif kind == 10:
                 # a borrowed handle can be borrowed again: the new handle sees what the old one would
+                await drop_kept()
                 b = L.borrow(b)
                 got = exp = ("borrowed_handle",)
             elif kind in (11, 12):
@@ -389,6 +418,63 @@ def execute(st, ctx):
                             model["open"] = False
                     else:
                         exp = ("stop",)
+            elif kind in (15, 16):
+                def tool_ended():
+                    # the tool ended by itself (exhaustion or an error of its own): it has released its input
+                    model["open"] = False
+                    model["closed"] = None if model["signalled_stop"] else True
+                    out.probes["closed_by_tool"] = 1
+
+                if kind == 15:
+                    _, spec, j, hpos = op
+                    name = "tool_kept:" + spec.tool
+                    tool = TOOLS[spec.tool]
+                    w = World(sim, own_log=True)
+                    others = [make_async_source(w, p).obj for n_, p in enumerate(spec.srcs) if n_ != hpos]
+                    others.insert(hpos, b)
+                    fns = [make_async_fn(w, p).obj if p is not None else None for p in spec.fns]
+                    it = tool.a(L, spec, others, fns)
+                    del others
+                    model["signalled_stop"] = False
+                    model["touched"] = False
+                    rw = World()
+                    rothers = [make_ref_source(rw, p).obj for n_, p in enumerate(spec.srcs) if n_ != hpos]
+                    rothers.insert(hpos, ModelIter(model, items))
+                    rfns = [make_ref_fn(rw, p).obj if p is not None else None for p in spec.fns]
+                    rit = iter(tool.r(spec, rothers, rfns))
+                    steps = j
+                    out.probes["tool_kept"] = 1
+                else:
+                    if not kept:
+                        got = exp = ("nothing_kept",)
+                        steps = 0
+                    else:
+                        it, rit = kept.pop()
+                        steps = 1
+                if kind == 15 or steps:
+                    got_items, exp_items, got_end, exp_end = [], [], None, None
+                    for _ in range(steps):
+                        try:
+                            got_items.append(ident(await it.__anext__()))
+                        except StopAsyncIteration:
+                            got_end = "stop"
+                        except (ValueError, TypeError) as err:
+                            got_end = type(err).__name__
+                        try:
+                            exp_items.append(ident(next(rit)))
+                        except StopIteration:
+                            exp_end = "stop"
+                        except (ValueError, TypeError) as err:
+                            exp_end = type(err).__name__
+                        if got_end or exp_end:
+                            break
+                    if got_end is None and exp_end is None:
+                        kept.append((it, rit))
+                    elif exp_end is not None:
+                        tool_ended()
+                    it = rit = None
+                    got = ("kept", tuple(got_items), got_end)
+                    exp = ("kept", tuple(exp_items), exp_end)
             elif kind == 14:
                 # a second task pulls through the handle and is (if the underlying suspends) still inside that pull
                 # when this task closes the handle: the library may refuse the close ("already running") - then the
@@ -462,6 +548,7 @@ def execute(st, ctx):
                 del rungs, r
                 got, exp = ("ladder", tuple(got_l)), ("ladder", tuple(exp_l))
             elif kind == 6:
+                await drop_kept()
                 b = L.borrow(underlying)
                 model["open"] = True
                 model["closed"] = model["exhausted"] = False
@@ -469,6 +556,7 @@ def execute(st, ctx):
                 out.probes["reborrowed"] = 1
                 await settle()
             else:
+                await drop_kept()
                 del b
                 await settle()
                 b = L.borrow(underlying)
@@ -484,13 +572,15 @@ def execute(st, ctx):
                 return
             if not model["open"] and kind in (1,):
                 out.probes["underlying_used_after_close"] = 1
+        await drop_kept()
+        check(len(sc.ops), "end")
 
     sim.spawn(history())
     run_sim(sim)
 
     def describe():
         return {"underlying": sc.src.describe(),
-                "ops": [[o[0], o[1].describe()] + list(o[2:]) if o[0] in (5, 9) else list(o) for o in sc.ops],
+                "ops": [[o[0], o[1].describe()] + list(o[2:]) if o[0] in (5, 9, 15) else list(o) for o in sc.ops],
                 "trace": [repr(t) for t in trace], "model": dict(model)}
 
     if sim.deadlock:
@@ -504,7 +594,7 @@ def execute(st, ctx):
     closed_once = any(out.probes.get(k) for k in ("closed_directly", "closed_via_iter", "closed_by_tool", "closed_by_gc"))
     out.nontrivial = bool(closed_once and out.probes.get("underlying_used_after_close"))
     out.shape = (sc.src.flavour, len(items),
-                 tuple((o[0], o[1].shape_key()) + tuple(o[2:]) if o[0] in (5, 9) else o for o in sc.ops))
+                 tuple((o[0], o[1].shape_key()) + tuple(o[2:]) if o[0] in (5, 9, 15) else o for o in sc.ops))
     if out.probes.get("closed_directly") or out.probes.get("closed_via_iter"):
         out.faults["handle_closed"] = 1
     if out.probes.get("tool_abandoned"):
